@@ -18,6 +18,7 @@ SPEC = {
     "inject": [("apollo-parser", "src/cst/node_ext.rs", "parser/strings.rs", "verif_strings")],
     "support": ["parser/ref_lexer.rs", "parser/strings_prefix.rs"],
     "unsafe_checks": False,
+    "native_sweep": "verif_native_sweep_c06",
     "timeout": {"quick": 900, "thorough": 1800},
     "jobs": 12,
     "harnesses": [
